@@ -218,7 +218,7 @@ def run(ctx):
                        "the first statement of generated scripts (general generator: every statement kind, so also non-SELECT inputs and rejected texts) and on the dedicated "
                        "queries; (2) oracle on the implementation: a dedicated generator writes queries with known table placement — FROM lists, join chains with ON / USING, "
                        "derived tables, scalar / IN / EXISTS / comparison sub-queries in the select list, ON, WHERE, GROUP BY, HAVING, ORDER BY, UNION branches, WITH tables "
-                       "(also nested), to depth 3, names bare / back-quoted / with blanks / schema-qualified in four quoting forms / back-quoted containing dots — and returns the "
+                       "(also nested), to depth 3, keywords in upper / lower / Capitalised / mixed letter case, joined tables mostly WITHOUT alias directly followed by USING / CROSS JOIN / ON / the next clause, Hive SORT BY / DISTRIBUTE BY / CLUSTER BY directly after a table reference, names bare / back-quoted / with blanks / schema-qualified in four quoting forms / back-quoted containing dots — and returns the "
                        "ordered list of (schema, name) per occurrence; the analyzers' answers must equal it exactly. distinct_nontrivial = distinct non-empty answers")
     ctx.cov["validated_only"] = ["agreement of the hand model of the reflective walk with analyzer/base.py and all_level_standard_table.py (sampled)",
                                  "schema/name split of the parser (`_parse_table_name_expression`) against the spelling written by the generator (oracle)"]
@@ -241,7 +241,7 @@ def run(ctx):
             ctx.count("oracle:%s:%s" % (k, sig or "exact"))
             if sig:
                 pfam.report(ctx, sig, {"kind": "input", "entry": "analyzer %s" % k, "dialect": c["dialect"], "input": c["text"], "analysis": k,
-                                       "want": [list(t[:2]) for t in c[k]], "observed": a[:600],
+                                       "want": [list(t[:3]) for t in c[k]], "observed": a[:600],
                                        "oracle": "c14: the %s analysis must return exactly the tables written, in textual order" % k, "how_found": "dedicated generator"})
     # -- general generator: correspondence only --------------------------------------------------------------
     gen = []
@@ -281,7 +281,7 @@ def search(ctx):
         for j, k in enumerate(KINDS):
             sig = judge(k, c[k], ans[3 * i + j])
             if sig and pfam.report(ctx, sig, {"kind": "input", "entry": "analyzer %s" % k, "dialect": c["dialect"], "input": c["text"], "analysis": k,
-                                             "want": [list(t[:2]) for t in c[k]], "observed": ans[3 * i + j][:600],
+                                             "want": [list(t[:3]) for t in c[k]], "observed": ans[3 * i + j][:600],
                                              "oracle": "c14: the %s analysis must return exactly the tables written" % k, "how_found": "search: directed generation"}):
                 return
 
@@ -289,6 +289,11 @@ def search(ctx):
 def replay(payload):
     k = payload.get("analysis", "all")
     a = E.run_impl([req(k, payload["dialect"], payload["input"])])[0]
-    want = expected_dump([tuple(t) + ("",) for t in payload["want"]])
+    tables = [tuple(t) if len(t) > 2 else tuple(t) + ("",) for t in payload["want"]]
+    want = expected_dump(tables)
     print("query   :", repr(payload["input"])); print("analysis:", k); print("expected:", want[:600]); print("observed:", a[:600])
-    return 0 if a == want else 1
+    sig = judge(k, tables, a)
+    known = [f["signature"]["failure"] for f in E.known_findings("C14") if f.get("status") == "finding"]
+    if sig in known:
+        print("differs only by the listed finding:", sig)
+    return 0 if sig is None or sig in known else 1
